@@ -625,8 +625,41 @@ def check_cross_thread(case):
     return {'labels': ['cross=%d' % min(cross, 5)], 'nontrivial': cross > 0}
 
 
+def switch_sensitive_calls():
+    """calls whose result is different under the two settings of the legacy switch"""
+    qd = {'ticket': 0, 'queue': 'q', 'passive': False, 'durable': False,
+          'exclusive': False, 'auto_delete': False, 'nowait': False}
+    out = []
+    for n in (40000, 65535, 3000000000, 2 ** 32 - 1):
+        out += [['prim_encode', 'table_integer', n],
+                ['prim_encode', 'encode_table_value', n],
+                ['prim_encode', 'field_table', {'k': n}],
+                ['prim_encode', 'field_array', [1, [n], {'d': n}]],
+                ['marshal', {'kind': 'method', 'cls': 'Queue.Declare', 'ch': 1,
+                             'args': dict(qd, arguments={'x-max-length': n})}],
+                ['marshal', {'kind': 'header', 'ch': 1, 'body_size': 1,
+                             'props': {'headers': {'n': [n]}}}]]
+    return out
+
+
+def switch_cross_thread_sweep(tier, shard, nshards):
+    """the switch set on one thread, a switch-sensitive call made on another (or the
+    same), for every pair of threads, both directions of the switch and every such call"""
+    out = []
+    for call in switch_sensitive_calls():
+        for a in range(3):
+            for b in range(3):
+                for first in (True, False):
+                    out.append({'nthreads': 3, 'ops': [
+                        [a, ['toggle', first]], [b, call], [a, call],
+                        [b, ['toggle', not first]], [a, call], [b, call],
+                        [a, ['toggle', first]], [(b + 1) % 3, call], [b, call]]})
+    return out[shard::nshards]
+
+
 def cross_thread_cases(tier):
-    op = st.one_of(call_ops(), call_ops(), prim_encode_ops(),
+    sensitive = st.sampled_from(switch_sensitive_calls()).map(tuple)
+    op = st.one_of(call_ops(), call_ops(), prim_encode_ops(), sensitive,
                    st.tuples(st.just('toggle'), st.booleans())).map(list)
     return st.fixed_dictionaries({
         'nthreads': st.integers(2, 3),
@@ -812,6 +845,11 @@ COMPONENTS = [
     Component('history', check_history, strategy=history_cases,
               budget={'quick': 2400, 'thorough': 48000},
               describe='generated API call histories vs fresh interpreter'),
+    Component('switch-cross-thread', check_cross_thread,
+              cases=switch_cross_thread_sweep, shards={'quick': 8, 'thorough': 8},
+              describe='the legacy switch set on one long-lived thread and every kind of '
+                       'switch-sensitive call made on another: all thread pairs, both '
+                       'directions'),
     Component('cross-thread', check_cross_thread, strategy=cross_thread_cases,
               budget={'quick': 1600, 'thorough': 32000},
               describe='histories (incl. switch toggles) whose operations are placed on '
